@@ -166,6 +166,10 @@ def c18(holder, live, rec):
             if p is None:
                 f.append({"inv": "C18.parent_not_exported", "detail": f"{d['id']} parent={d['parent']}"})
                 continue
+            # the compound parent must be the printed name of the owner of (one of) the node(s) printing this id
+            owners_ok = [n for n in by_id.get(d["id"], []) if (str(n.parent) if n.parent is not None else "<unknown>") == d["parent"]]
+            if by_id.get(d["id"]) and not owners_ok:
+                f.append({"inv": "C18.parent_is_not_the_owner", "detail": f"{d['id']} exported under parent {d['parent']}, owner prints as {[str(n.parent) for n in by_id[d['id']]][:3]}"})
             # type of the compound parent must match the owner of (one of) the node(s) printing this id
             want = set()
             for n in by_id.get(d["id"], []):
